@@ -56,3 +56,10 @@ def run(ctx):
     # cache history at the CLI level ("with or without the hash cache"): stale entries after an in-place rewrite
     G.cache_history_check(ctx, eng, ctx.pick(8, 80))
 
+    # transform dimension: `$IN` temp copies with equal base names in several directories on a multi-threaded sequential pool,
+    # and programs that fail (exit status / killed by a signal, with and without partial output) for some of the files
+    tr = [G.gen_in_transform_spec(ctx.rng.fork(), failing=(i % 2 == 1)) for i in range(ctx.pick(24, 300))]
+    res = eng.run_specs(tr)
+    for r in res:
+        ctx.bump("transform_special", r["spec"]["opts"]["transform"].split(" ")[0] + ("" if "failsome" not in r["spec"]["opts"]["transform"] else ":" + r["spec"]["opts"]["transform"].split(" ")[1]))
+    G.process_results(ctx, eng, res)
